@@ -211,7 +211,8 @@ func (c *Concretizer) patchesFor(d Delta) []interface{} {
 
 // memValue is the value of document member m<i>.
 func memValue(i int) interface{} {
-	return map[string]interface{}{"s": fmt.Sprintf("v%d?a=1&b=<2>\u2028\u00e9", i), "n": []interface{}{float64(i), 1e21, 9007199254740993.0, 1e-7}}
+	return map[string]interface{}{"s": fmt.Sprintf("v%d?a=1&b=<2>\u2028\u00e9", i), "n": []interface{}{float64(i), 1e21, 9007199254740993.0, 1e-7},
+		"\uff21": 1.0, "\U0001f600": 2.0, "": 3.0, "n ": 4.0}
 }
 
 func anchorOrigin(ao int) interface{} {
@@ -581,7 +582,19 @@ func (c *Concretizer) buildRequest(o *ROp, variant int) ([]byte, int) {
 	case "badkey":
 		jwk.X = ""
 	case "nonce":
-		jwk.Nonce = b64(make([]byte, 8))
+		// a nonce of the wrong size, or no base64url at all although as long as a right one would be
+		switch o.way(5) {
+		case 0:
+			jwk.Nonce = b64(make([]byte, 8))
+		case 1:
+			jwk.Nonce = strings.Repeat("!", 22)
+		case 2:
+			jwk.Nonce = strings.Repeat("+/", 11)
+		case 3:
+			jwk.Nonce = strings.Repeat("A", 20) + "=="
+		case 4:
+			jwk.Nonce = b64(make([]byte, 17))
+		}
 	case "reuse":
 		// the next recovery commitment is the commitment of the key that signs this operation
 		recCommit = refCommitment(jwk, alg)
@@ -693,6 +706,31 @@ func (c *Concretizer) buildRequest(o *ROp, variant int) ([]byte, int) {
 	signWith := signer
 	if o.Sig == "otherkey" {
 		signWith = other
+
+		// every other such operation names BOTH keys in its payload: the attacker's under the member name proper,
+		// then the owner's under the same name in another letter case (a decoder that matches names
+		// case-insensitively takes the last one, a lookup by exact name the first)
+		if o.way(2) == 1 && o.Wf == "ok" {
+			if _, has := signed[keyName]; has {
+				rest := map[string]interface{}{}
+				for k, v := range signed {
+					if k != keyName {
+						rest[k] = v
+					}
+				}
+
+				att, _ := json.Marshal(jwkMap(other.JWK))
+				own, _ := json.Marshal(signed[keyName])
+				restB := refJCSSimple(rest)
+				sep := ","
+
+				if string(restB) == "{}" {
+					sep = ""
+				}
+
+				payload = []byte(fmt.Sprintf(`{"%s":%s,"%s":%s%s%s`, keyName, att, strings.ToUpper(keyName[:1])+keyName[1:], own, sep, restB[1:]))
+			}
+		}
 	}
 
 	signedData := compactJWS(headers, payload, signWith)
@@ -884,11 +922,26 @@ func tamperJWS(sd, kind string, variant int) (string, int) {
 			return join(parts[0], "", parts[2]), 3
 		}
 	case "seg_extra":
-		switch variant % 2 {
+		// a fourth segment, a trailing dot, and segments carrying base64 padding (the compact form has none)
+		pad := func(x string) string {
+			if len(x)%4 == 0 {
+				return x + "====" // (nothing to pad: a whole group of padding characters)
+			}
+
+			return x + strings.Repeat("=", 4-len(x)%4)
+		}
+
+		switch variant % 5 {
 		case 0:
-			return sd + ".AAAA", 2
+			return sd + ".AAAA", 5
+		case 1:
+			return sd + ".", 5
+		case 2:
+			return join(parts[0], parts[1], pad(parts[2])), 5
+		case 3:
+			return join(parts[0], pad(parts[1]), parts[2]), 5
 		default:
-			return sd + ".", 2
+			return join(pad(parts[0]), pad(parts[1]), pad(parts[2])), 5
 		}
 	case "seg_missing":
 		switch variant % 3 {
